@@ -21,9 +21,13 @@ PROP = dict(
                  "(dictionary before auto-learning)",
                  "'leading part of the conversion of the full buffer' = of the buffer including what the key inserted, at the "
                  "moment the overflow is detected (same nth, same dictionary); the rest is converted afresh afterwards",
-                 "character counting (conservation, non-empty commit string, the history ledger) assumes the engine tiles the "
+                 "character counting (conservation, non-empty commit string, the history ledger) needs the engine to tile the "
                  "buffer with one character per symbol at the states where a commit path runs (TilesAt; ConvTiles = at every "
-                 "state); tilesAt_of_C03 reduces it to C03's hypotheses; everything else holds for every environment",
+                 "state); tilesAt_of_C03 reduces it to C03's hypotheses; history_ledger_linked / _total / _fresh / _C03 discharge "
+                 "it along every history outside C01's known class (F02/F03) from C01's reachable-state invariant, for every "
+                 "environment satisfying C01's EnvOK (all its clauses are used); everything else holds for every environment",
+                 "history_ledger_C03 (engine = C03's model): C03's theorems cover buffers of at most 128 symbols (ScoreBound); "
+                 "for longer buffers the engine contract stays a hypothesis (EngineIsC03.beyond)",
                  "'accepted characters' of a step = net change of the symbol count made by its editing part (state machine / "
                  "API call before the commit path), +1 for a key committed directly from an empty pre-edit; which keys insert "
                  "or delete what is C05/C18",
@@ -50,15 +54,23 @@ MANIFEST = dict(
          "characters of all commit strings plus the final pre-edit equal the initial pre-edit plus every accepted "
          "character. The tiling hypothesis is needed only at states where a commit path runs (TilesAt); tilesAt_of_C03 "
          "derives it from C03's theorems under exactly C03's hypotheses (CompValid, NoEmptyKey, WellFormed, HasWord for the "
-         "simple engine), shown non-vacuous on an environment whose engine is C03's engine model. "
+         "simple engine), shown non-vacuous on an environment whose engine is C03's engine model. Linked (round 2, "
+         "Proofs/EditorLink.lean): the edited state of every operation satisfies C01's shared-state invariant (editPart_shInv), "
+         "so TilesAlong is a theorem along every history outside C01's known class (tilesAlong_of_allowed) and "
+         "history_ledger_linked / history_ledger_total / history_ledger_fresh state the ledger with NO tiling premise for "
+         "every environment satisfying C01's EnvOK; history_ledger_C03 instantiates the engine clause with C03's engine model "
+         "(EngineIsC03, envOK_of_C03), and linkEnv_key_histories is the premise-free instance: every key history on the fresh "
+         "editor over C03's engine model and example dictionary runs to the end and satisfies the ledger. "
          "Tie: per-step correspondence of the model with the real editor from its own pre-state (0 differences), plus the "
          "property evaluated directly on the real editor (oracle_c02: display() before vs commit string after, least-prefix "
          "and conservation against the engine's recorded answer for the full buffer, a running per-session ledger, commit "
          "routes counted).",
     note="Theorem: everything above, about the model. Correspondence (sampled, not proved): model = src/editor/mod.rs on the "
-         "generated histories. Premises, not proved here: that the real engines are C03's model (C03's own correspondence) "
-         "and that editor histories reach only CompValid compositions (C04's invariant); history_ledger therefore takes "
-         "TilesAlong as a hypothesis. Trusted: Lean kernel (standard axioms), the read-only snapshot hook, harness + compiled "
+         "generated histories. Premise, not proved here: that the real engines are C03's model (C03's own correspondence). "
+         "That editor histories reach only valid compositions with a word for every buffered syllable is C01's invariant, now "
+         "connected: history_ledger keeps TilesAlong as a hypothesis, history_ledger_linked has none beyond C01's EnvOK and the "
+         "exclusion of C01's known class F02/F03 (and of jump_* on an open phrase list, C01's coverage gap); C03's engine "
+         "theorems reach buffers of at most 128 symbols, beyond that the engine clause is assumed. Trusted: Lean kernel (standard axioms), the read-only snapshot hook, harness + compiled "
          "model driver. F29 (commit string outliving its key) was a genuine defect, repaired by fix commit 1c4da4f; "
          "reintroducing it is reported with a 3-step history.",
     technique="Lean 4 proof (induction over the interval list and over operation lists; case analysis over every arm of the "
